@@ -225,15 +225,41 @@ class FuncVerifier(object):
         return r
 
     def apply_one_hint(self, st, h, hi_, site, extra):
-        if h and h[-1] == 'optional' and h[0] not in ('assert_from', 'assert_using'):
+        if h and h[-1] == 'optional':
             h = h[:-1]
         for _once in (0,):
             kind = h[0]
-            if kind == 'when':
-                # ('when', guard, [hints]): ghost code for the paths on which the guard is a literal of the path condition
+            if kind == 'unless_passed':
+                # ('unless_passed', site, [hints]): ghost code for the paths that did NOT pass the named hint site
+                if h[1] not in st.snaps:
+                    for j_, hh in enumerate(h[2]):
+                        try:
+                            self.apply_one_hint(st, hh, j_, '%s.hint%d' % (site, hi_), extra)
+                        except MissingSnapshot:
+                            pass
+                continue
+            if kind == 'unless':
+                # ('unless', guard, [hints]): ghost code for the paths on which the NEGATED guard is a literal of the path condition
                 g = self.spec(st, extra=extra).ev_bool(h[1])
                 ng = z3.Not(g)
-                if any(z3.eq(x, g) for x in st.pc):
+                if any(z3.eq(x, ng) for x in st.pc):
+                    for j_, hh in enumerate(h[2]):
+                        try:
+                            self.apply_one_hint(st, hh, j_, '%s.hint%d' % (site, hi_), extra)
+                        except MissingSnapshot:
+                            pass
+                elif not any(z3.eq(x, g) for x in st.pc):
+                    raise ContractError('unless-guard %r is not decided by the path condition at %s' % (h[1], site))
+                continue
+            if kind == 'when':
+                # ('when', guard, [hints]): ghost code for the paths on which the guard is a literal of the path condition
+                # (or is decided by the concrete part of the state, e.g. the length of a Python list)
+                g = self.spec(st, extra=extra).ev_bool(h[1])
+                ng = z3.Not(g)
+                gs_ = z3.simplify(g)
+                if z3.is_false(gs_):
+                    continue
+                if z3.is_true(gs_) or any(z3.eq(x, g) for x in st.pc):
                     for j_, hh in enumerate(h[2]):
                         try:
                             self.apply_one_hint(st, hh, j_, '%s.hint%d' % (site, hi_), extra)
